@@ -35,6 +35,31 @@ impl<'s> Semantics<'s> {
         }
     }
 
+    /// True if one of this instruction's operands is a segment register.
+    ///
+    /// Falcon models segments by their base address only (`fs_base`, ...).
+    /// Instructions which move selectors in or out of segment registers are
+    /// not supported.
+    pub fn has_segment_register_operand(&self) -> Result<bool, Error> {
+        let detail = self.details()?;
+        Ok(detail
+            .operands
+            .iter()
+            .take(detail.op_count as usize)
+            .any(|operand| match operand.type_ {
+                x86_op_type::X86_OP_REG => matches!(
+                    operand.reg(),
+                    x86_reg::X86_REG_CS
+                        | x86_reg::X86_REG_DS
+                        | x86_reg::X86_REG_ES
+                        | x86_reg::X86_REG_FS
+                        | x86_reg::X86_REG_GS
+                        | x86_reg::X86_REG_SS
+                ),
+                _ => false,
+            }))
+    }
+
     /// Generates a temporary scalar unique to this instruction.
     pub fn temp(&self, subindex: usize, bits: usize) -> Scalar {
         Scalar::new(
